@@ -39,3 +39,87 @@ Qed.
 Lemma stop_at_first_error_refuted_proof :
   exists (evs : list bool), snd (feed (fun b => b) false pump0 evs) <> [] /\ snd (feed (fun b => b) true pump0 evs) = [].
 Proof. exists [true; false]. split; [discriminate | reflexivity]. Qed.
+
+(** Statements for EVERY receiver policy ([keep] arbitrary) and every callback. *)
+Section AnyPolicy.
+  Context {A : Type}.
+  Variable raises : A -> bool.
+  Let clean (x : A) := negb (raises x).
+
+  (** conservation: what the callback was called with, followed by what was never received, is what was sent -- nothing
+      lost, repeated, reordered or invented, and the callback always holds a prefix of the stream *)
+  Lemma feed_conserves_gen : forall keep evs p,
+    p_seen (fst (feed raises keep p evs)) ++ snd (feed raises keep p evs) = p_seen p ++ evs.
+  Proof.
+    intros keep; induction evs as [|e rest IH]; intros p; cbn [feed fst snd].
+    - reflexivity.
+    - unfold recv. destruct (p_alive p) eqn:Ea.
+      + rewrite IH. cbn [p_seen]. now rewrite <- app_assoc.
+      + reflexivity.
+  Qed.
+
+  Lemma pump_conserves_proof : forall keep evs,
+    p_seen (fst (feed raises keep pump0 evs)) ++ snd (feed raises keep pump0 evs) = evs.
+  Proof. intros. now rewrite feed_conserves_gen. Qed.
+
+  (** a receiver that has stopped is never called again, and a receiver that is alive has left nothing blocked *)
+  Lemma feed_alive_nothing_blocked_gen : forall keep evs p,
+    p_alive (fst (feed raises keep p evs)) = true -> snd (feed raises keep p evs) = [].
+  Proof.
+    intros keep; induction evs as [|e rest IH]; intros p; cbn [feed fst snd]; [reflexivity|].
+    unfold recv. destruct (p_alive p) eqn:Ea; [apply IH|]. cbn [fst]. congruence.
+  Qed.
+
+  Lemma feed_clean : forall evs seen,
+    forallb clean evs = true -> feed raises false (mkPump true seen) evs = (mkPump true (seen ++ evs), []).
+  Proof.
+    induction evs as [|e rest IH]; intros seen H; cbn [feed recv p_alive p_seen orb].
+    - now rewrite app_nil_r.
+    - cbn [forallb] in H. apply andb_true_iff in H as [He Hr]. unfold clean in He. rewrite He.
+      rewrite IH by exact Hr. now rewrite <- app_assoc.
+  Qed.
+
+  Lemma first_raising : forall evs,
+    forallb clean evs = true \/
+    exists pre e post, evs = pre ++ e :: post /\ forallb clean pre = true /\ raises e = true.
+  Proof.
+    induction evs as [|x xs IH]; [now left|].
+    destruct (raises x) eqn:Ex.
+    - right. exists [], x, xs. repeat split; assumption.
+    - destruct IH as [H | (pre & e & post & E & Hp & He)].
+      + left. cbn [forallb]. unfold clean at 1. now rewrite Ex.
+      + right. exists (x :: pre), e, post. subst xs. repeat split; [|exact He].
+        cbn [forallb]. unfold clean at 1. now rewrite Ex.
+  Qed.
+
+  Lemma forallb_removelast : forall (f : A -> bool) l, forallb f l = true -> forallb f (removelast l) = true.
+  Proof.
+    intros f; induction l as [|x [|y l] IH]; intros H; [reflexivity | reflexivity |].
+    change (removelast (x :: y :: l)) with (x :: removelast (y :: l)).
+    cbn [forallb] in H |- *. apply andb_true_iff in H as [Hx Hr]. rewrite Hx. apply IH. exact Hr.
+  Qed.
+
+  (** exactly when a stop-at-first-error receiver differs from dawn's: it leaves senders blocked iff the callback raises
+      for some event that is not the last one of the stream *)
+  Lemma stopping_pump_blocks_iff_proof : forall evs,
+    snd (feed raises false pump0 evs) = [] <-> forallb clean (removelast evs) = true.
+  Proof.
+    intros evs. destruct (first_raising evs) as [H | (pre & e & post & E & Hp & He)].
+    - unfold pump0. rewrite feed_clean by exact H. cbn [snd]. split; intros _; [now apply forallb_removelast | reflexivity].
+    - subst evs. rewrite (pump_stopping_blocks_proof raises pre e post Hp He). cbn [snd].
+      destruct post as [|y post].
+      + rewrite removelast_last. split; intros _; [exact Hp | reflexivity].
+      + split; [discriminate|]. intros H. exfalso.
+        rewrite removelast_app in H by discriminate.
+        change (removelast (e :: y :: post)) with (e :: removelast (y :: post)) in H.
+        rewrite forallb_app in H. apply andb_true_iff in H as [_ H]. cbn [forallb] in H.
+        unfold clean at 1 in H. rewrite He in H. discriminate.
+  Qed.
+End AnyPolicy.
+
+(** on a build: under any policy the callback holds a prefix of the build's stream and the blocked rest completes it *)
+Lemma callback_holds_a_prefix_proof :
+  forall (raises : sev -> bool) keep out c w l,
+    p_seen (fst (feed raises keep pump0 (run_stream out c w l))) ++ snd (feed raises keep pump0 (run_stream out c w l))
+    = run_stream out c w l.
+Proof. intros. apply pump_conserves_proof. Qed.
